@@ -487,7 +487,8 @@ func sigPool(raw json.RawMessage, line string) string {
 	return fmt.Sprintf("pool/%s/%s/%s-%s", pc.Kind, fl, ev.K, ev.By)
 }
 
-var famPool = Register(&Family{Name: "pool", Spec: "Trace_BufPool", Cfg: "Trace_BufPool.cfg", Run: runPoolCase, Sig: sigPool, ParallelGC: true})
+var famPool = Register(&Family{Name: "pool", Spec: "Trace_BufPool", Cfg: "Trace_BufPool.cfg", Run: runPoolCase, Sig: sigPool, ParallelGC: true,
+	Retries: 3}) // pooled decoder objects carry their buffer from one use to the next: a rejected case is confirmed by running it back to back
 
 func genPoolCases(c *Ctx) []json.RawMessage {
 	var out []json.RawMessage
